@@ -262,6 +262,27 @@ func c06(c *Ctx) {
 			c.ruleOrder("C06.3/preconditions-in-lock", f, "WaitForIndexingUpto", callTo(storeT+"WaitForIndexingUpto"), "checkPreconditions", callTo(otxT+"checkPreconditions"), nil, 1)
 		}
 	}
+	// check-then-write handlers: an existence pre-check on the index followed by the commit of a write-only
+	// transaction (no read-set, so nothing is validated at commit) is atomic only under the exclusive database lock,
+	// which keeps out Set/Delete/ExecAll (they hold the shared lock for their whole commit)
+	rx := "C06.3/check-then-write-exclusive"
+	nx := 0
+	for _, f := range c.allFns {
+		if !fnInPkgs(f, []string{"pkg/database"}) || f.Signature.Recv() == nil || len(f.Blocks) == 0 {
+			continue
+		}
+		wo := sites(f, callTo(storeT+"NewWriteOnlyTx"))
+		pre := sites(f, callTo("pkg/database.(*db).getAtTx", "pkg/database.(*db).get", "pkg/database.(*db).getAtRevision"))
+		if len(wo) == 0 || len(pre) == 0 {
+			continue
+		}
+		nx++
+		c.ruleHeldAt(rx, f, "pre-check", callTo("pkg/database.(*db).getAtTx", "pkg/database.(*db).get", "pkg/database.(*db).getAtRevision"), "db.mutex", true, nil)
+		c.ruleHeldAt(rx, f, "commit", callTo(otxT+"Commit", otxT+"AsyncCommit"), "db.mutex", true, nil)
+	}
+	if nx < 2 {
+		c.undecided(rx, "floor", fmt.Sprintf("%d check-then-write handlers found (SetReference, ZAdd confirmed by hand; ExecAll evaluates its checks inside the store's commit callback, C06.3/preconditions-in-lock)", nx))
+	}
 	if f := c.mustFn("C06.3/preconditions-in-lock", storeT+"preCommitWith"); f != nil {
 		// the callback (which evaluates KV preconditions against the index) runs under the lock, after the wait
 		cb := func(in ssa.Instruction) bool {
